@@ -28,6 +28,13 @@ to the one its consumer is still handling (`lstep`), the same histories without 
 (`C09.lossy_queue_breaks_convergence`, `C09.lossy_value_queue_breaks_convergence`). On the real
 code the harness forces exactly that history (the same document updated again while the
 reconciler's Load for the previous update is parked).
+
+Serialisation assumed by the model: an event is taken and handled only when no load is in flight
+(`cstep`), whatever its kind – `loadMu` around `Load` and `reload`, which are all `Reconcile`
+does (tie theorems in C09Tie.lean over Generated/RuntimeFacts). The last section shows the
+dependence: a delete event applied between a load's read and its commit (`ustep`) leaves a symbol
+for a deleted spec for ever (`C09.unlocked_delete_breaks_convergence`); the harness forces that
+interleaving on the real code (delete-during-load family).
 -/
 import Uniflow.Proofs.Runtime
 import Uniflow.Proofs.RuntimeConc
@@ -405,4 +412,61 @@ theorem C09.lossy_queue_counterexample_needs_the_drop :
     l.c.fl = none ∧ l.c.st.specEv = [] ∧ l.c.st.valEv = [] ∧
     lookup l.c.st.table 1 = some ⟨{ s1 with ver := 3 }, some [⟨5, 10, some 7, 4⟩]⟩ ∧
     lookup l.c.st.table 1 = l.c.st.target 1 := by
+  decide
+
+/-! ### `loadMu` around the handling of every event kind: what convergence relies on
+
+`C09.converges_concurrent` is about `cstep`, in which an event is taken and handled only when no
+load is in flight – that is what `loadMu` (held by `Load` and by `reload`, the only two things
+`Reconcile` does with an event: `C09.reconcile_reaches_table_only_through_load` in C09Tie.lean,
+re-checked against the source on every run) guarantees, for every kind of event. `ustep` adds the
+one step that breaks this: the spec consumer frees the symbol of a deleted spec at once, while a
+load that read the spec before the deletion is still in flight. -/
+
+/-- With no load in flight the fast path is harmless: it leaves under every id exactly what the
+serialised handling of the event (`beginSpec` then `commit`, i.e. `Load({id})`) leaves. -/
+theorem C09.unlocked_delete_harmless_when_idle (c : CSt) (i : Nat) (rest : List Nat)
+    (hns : TabNs c.st) (hfl : c.fl = none) (hev : c.st.specEv = i :: rest) (hdel : lookup c.st.specs i = none)
+    (j : Nat) :
+    lookup (ustep c .fastDelete).st.table j = lookup (cstep (cstep c .beginSpec) .commit).st.table j := by
+  have h1 : lookup (ustep c .fastDelete).st.table j = if j = i then none else lookup c.st.table j := by
+    simp only [ustep, hev, hdel]
+    exact freeSym_lookup c.st.table c.st.log i j
+  have h2 : lookup (cstep (cstep c .beginSpec) .commit).st.table j = if j = i then none else lookup c.st.table j := by
+    simp only [cstep, hfl, hev]
+    have hns' : TabNs { c.st with specEv := rest } := hns
+    show lookup (load { c.st with specEv := rest } (.ids [i])).table j = _
+    rw [load_table _ _ hns']
+    by_cases hji : j = i
+    · subst hji
+      simp [Filter.matches, St.target, targetAt, hdel]
+    · simp [Filter.matches, hji]
+  rw [h1, h2]
+
+/-- **Handling a delete event outside `loadMu` breaks convergence.** Concrete history: value 10, to
+which spec 1 is bound, is updated; the value consumer takes the event and its reload reads the
+stores (spec 1 is in its snapshot); spec 1 is deleted and the spec consumer's unlocked fast path
+frees the symbol at once; the reload then finds no symbol under id 1 and inserts spec 1 from its
+stale snapshot. No load in flight, both queues empty – and the table holds a symbol for a spec
+that no longer exists, for good ("nothing for deleted specs" fails). -/
+theorem C09.unlocked_delete_breaks_convergence :
+    ∃ (st0 : St) (h : List UOp),
+      st0.watching = true ∧ TabNs st0 ∧
+      let c := urun { st := load st0 .all } h
+      c.fl = none ∧ c.st.specEv = [] ∧ c.st.valEv = [] ∧
+      lookup c.st.specs 1 = none ∧ c.st.target 1 = none ∧
+      lookup c.st.table 1 = some ⟨s1, some [⟨5, 10, some 7, 5⟩]⟩ := by
+  refine ⟨run { ns := 1 } [.insSpec s1, .insVal v10, .watch],
+    [.c (.store (.updVal { v10 with ver := 5 })), .c .beginVal, .c (.store (.delSpec 1)), .fastDelete, .c .commit],
+    by decide, tabNs_run _ _ (tabNs_init 1), ?_⟩
+  decide
+
+/-- The overlap is what matters: the same steps with the delete event handled after the reload has
+committed (the order `loadMu` enforces) leave nothing under id 1. -/
+theorem C09.unlocked_delete_counterexample_needs_the_race :
+    let st0 : St := run { ns := 1 } [.insSpec s1, .insVal v10, .watch]
+    let h : List UOp := [.c (.store (.updVal { v10 with ver := 5 })), .c .beginVal, .c (.store (.delSpec 1)),
+      .c .commit, .fastDelete]
+    let c := urun { st := load st0 .all } h
+    c.fl = none ∧ c.st.specEv = [] ∧ c.st.valEv = [] ∧ lookup c.st.table 1 = none ∧ c.st.target 1 = none := by
   decide
